@@ -36,6 +36,13 @@ def harnesses(tier):
                           ["yash_arith::eval::eval", "yash_arith::eval::apply_binary", "yash_arith::eval::into_value"],
                           "unevaluated operands are not evaluated (raise nothing); the evaluated one is; && || yield 0/1",
                           timeout=900, mod=M))
+    EVAL_RX = r"^(yash_arith::)?eval::eval::<"
+    for nm, tpl, depth in [("select", "c ? a : b (c, a, b: all i64)", 2)]:
+        hs.append(Harness("c03_cond_" + nm, "template `%s` built as an AST; eval() recursion bounded to %d "
+                          "levels with the recursion unwinding assertion kept" % (tpl, depth),
+                          ["yash_arith::eval::eval", "yash_arith::eval::into_value"],
+                          "?: yields its second operand iff the first is non-zero, else the third",
+                          timeout=600, mem_gb=16, mod=M, recursion_bounds=[(EVAL_RX, depth)]))
     MA = "ast::verif_c03_ast"
     T = ["yash_arith::ast::Operator::precedence", "yash_arith::ast::Operator::as_binary", "yash_arith::ast::Operator::as_prefix",
          "yash_arith::ast::Operator::as_postfix"]
